@@ -58,7 +58,7 @@ FAN_NOTE = ("Remote nodes are scripted gRPC servers on loopback; only storage.Da
             "cannot be forced: the gates fix the state in which the choice is made and hundreds of schedules reach each state.")
 CHECKS.update({
     "C09": dict(
-        text="FanOut.tla models the worker / helper / collector / context protocol of Dataset.Search and SearchPartitions with the switch CloseChans; TLC checks NoNilNil, OkMeansAll, FailLoud and termination exhaustively for 3 workers x {ok, err, slow} (holds for 'none', counterexamples for 'both' and 'resOnly'). FanOutGen emits every complete behaviour's environment schedule (worker completion order, collector iterations, cancellation); the harness forces them on the real Dataset through gates at the collector loop and scripted remote nodes, and FanOutTrace accepts a call only if its return is one the repaired model allows (exact top-k of the union on success, an error whenever a worker failed, was stuck or the context was cancelled, never a hang or an empty success). On three real server processes (four partitions, two replicas each, so that every search fans out to real peers) searches through every node - before and after kill -9 / restart, and with one node down - return exactly the acknowledged items, and the 5 nearest are the 5 nearest of the full result (ClusterViewTrace: TopKNotUnion, AckedLostOnRestart, GhostAfterRestart); a search that fails loudly is accepted.",
+        text="FanOut.tla models the worker / helper / collector / context protocol of Dataset.Search and SearchPartitions with the switch CloseChans; TLC checks NoNilNil, OkMeansAll, FailLoud and termination exhaustively for 3 workers x {ok, err, slow} (holds for 'none', counterexamples for 'both' and 'resOnly'). FanOutGen emits every complete behaviour's environment schedule (worker completion order, collector iterations, cancellation); the harness forces them on the real Dataset through gates at the collector loop and scripted remote nodes, and FanOutTrace accepts a call only if its return is one the repaired model allows (exact top-k of the union on success, an error whenever a worker failed, was stuck or the context was cancelled, never a hang or an empty success). The real gRPC handlers of a server process are asked to search a dataset / partition that is not there and with wrong dimensions: they must fail, not return an empty success (ApiTrace: SilentSuccess). On three real server processes (four partitions, two replicas each, so that every search fans out to real peers) searches through every node - before and after kill -9 / restart, and with one node down - return exactly the acknowledged items, and the 5 nearest are the 5 nearest of the full result (ClusterViewTrace: TopKNotUnion, AckedLostOnRestart, GhostAfterRestart); a search that fails loudly is accepted.",
         note=FAN_NOTE, technique="TLA+ model checking (TLC) + forcing TLC-generated schedules on the real Dataset via gates + TLC trace validation", ref="5/C09"),
     "C17": dict(
         text="FanOutSize.tla models SizeInfo's inline local counting, per-partition goroutines (switch LoopVarShared for the go 1.14 loop-variable capture), the helper that closes errorCh and the counting collector; TLC checks EachOnce / FailLoud / termination exhaustively for 3 partitions x local/remote x ok/fail. The TLC-generated schedules are forced on the real Dataset with scripted remote nodes holding distinct power-of-two sizes, for placements with no, one and as many local partitions as remote ones; FanOutTrace requires exact sums with every remote partition asked exactly once, or an error. The serving side (Dataset.PartitionInfo) must answer for hosted partitions only (ForeignPartitionAnswered). On three real server processes the size every node reports (local partitions + lookups at the real peers) lies within what the acknowledged writes allow - the number of live items when nothing is uncertain - also after kill -9 / restart (ClusterViewTrace: SizeNotSum).",
